@@ -2,7 +2,6 @@ SPECIFICATION Spec
 CHECK_DEADLOCK FALSE
 POSTCONDITION TraceAccepted
 INVARIANT Axioms
-INVARIANT C01_QuietAtFix
 INVARIANT C01_QuietAfterQuiet
 INVARIANT C01_Bounded
 INVARIANT C02_WriteSafe
